@@ -259,7 +259,12 @@ func c05Gen(t *rapid.T) c05Case {
 		pages := rapid.IntRange(1, 5).Draw(t, "rpages")
 		r := c05Reservation{Size: uint64(pages)*4096 - uint64(rapid.SampledFrom([]int{0, 0, 1, 4095}).Draw(t, "rshort"))}
 		for k := 0; k < pages; k++ {
-			r.Frames = append(r.Frames, rapid.Uint64Range(1, 1<<36).Draw(t, "rframe"))
+			if rapid.IntRange(0, 5).Draw(t, "rlowframe") == 0 {
+				// low memory, physical frame 0 included (the first frame the early allocator hands out)
+				r.Frames = append(r.Frames, uint64(rapid.IntRange(0, 3).Draw(t, "rframelow")))
+			} else {
+				r.Frames = append(r.Frames, rapid.Uint64Range(1, 1<<36).Draw(t, "rframe"))
+			}
 		}
 		c.Reservations = append(c.Reservations, r)
 		if rapid.IntRange(0, 7).Draw(t, "refused") == 0 {
